@@ -1,6 +1,7 @@
 SPECIFICATION Spec
 CONSTANTS Layouts = {"mirror", "flat"}
  Deflibs = {"shared", "both", "static"}
+ LocSet = "all"
  Behavioural = "some"
 INVARIANT CollisionRuleCoherent
 INVARIANT ModelGraphWellFormed
